@@ -489,6 +489,10 @@ def check(ctx):
     headers_and_tables(ctx, ld)      # the strategy tables first: they name the row wrappers the next clause looks at
     row_wrappers(ctx, ld)
     selection(ctx, ld)
+    # cast_strategy=CAST_WITH_SCHEMA hands the rows to schema_validator: "values of the inferred types, or the offending row handled
+    # according to on_error" is its row loop (every checked field of every row is cast; shared clause with C14)
+    from checks import C14
+    C14.validator_loop(ctx)
     from rules import independence
     independence.r28_functions(ctx, [(LOAD + '.stripper', {}), (LOAD + '.stringer', {}), (LOAD + '.missing_values_extractor', {}),
                                      (LOAD + '.limiter', {'__kinds__': ('COUNTER',)})])
